@@ -32,7 +32,7 @@ from harness.props.C05_gen import BY_NAME, LETTERS, OCTET_POOL, TYPES, G
 
 RULE = (
     "values are structured wire forms of each of the 69 implemented record classes (every field drawn from its range with "
-    "boundary pools; all 256 octet values in character-strings, names and opaque fields; names below/at/outside the origin; "
+    "boundary pools; all 256 octet values in character-strings, names and opaque fields; TXT-like strings that are valid UTF-8 over a pool of C0/DEL/C1/NBSP/soft-hyphen/zero-width/ideographic-space/combining/astral code points under txt_is_utf8;  names below/at/outside the origin; "
     "IPv6 zero-run and embedded-IPv4 shapes; canonical and degenerate bitmaps; blob lengths around the chunk sizes), crossed "
     "with text styles (origin/relativize on the print and on the parse side, hex/base64 chunk sizes and separators, "
     "txt_is_utf8) and the RFC 3597 generic form; text soups and mutated valid text per type for the accept side; "
@@ -1172,7 +1172,7 @@ def impl_of_op(op: str) -> str:
 
 
 LEVEL = {
-    "text": "Lean 4 theorems over executable models of the text codecs (dns/ipv4.py, dns/ipv6.py in full, dns.rdata._escapify, Token.unescape / unescape_to_bytes, the tokenizer as one automaton, _wordbreak chunking with concatenate_remaining_identifiers, Python int()/dns.ttl, hex and base64, name fields on top of the C01 model, the generic \\# form with its re-encode check, and a per-type schema table for 44 record classes): inet_aton(inet_ntoa(a)) = a for IPv4 and IPv6 (every zero-run / embedded-IPv4 shape), the quoted character-string round trip for all 256 octets on the octet path (TXT-like types and, since the fix commits 6aa8f9c/210fbe5, HINFO/ISDN/X25/NAPTR/CAA/URI), with the code-point path get_string characterised separately (exact below 0x80, counter-example proved), blob round trips under every lossless chunking style, the generic form of unknown and known types, and parse(print v) = v through dns.rdata.from_text for every schema type whose field kinds have a lemma (43 classes). Tied to the code by a differential correspondence check on every modelled function (print and parse direction, malformed streams) and by constants/tables regenerated from the working tree; completed by a direct round-trip / totality / encodability oracle on the implementation over all 69 implemented record classes.",
+    "text": "Lean 4 theorems over executable models of the text codecs (dns/ipv4.py, dns/ipv6.py in full, dns.rdata._escapify, Token.unescape / unescape_to_bytes, the tokenizer as one automaton, _escapify_unicode and the txt_is_utf8 style of the TXT-like types, _wordbreak chunking with concatenate_remaining_identifiers, Python int()/dns.ttl, hex and base64, name fields on top of the C01 model, the generic \\# form with its re-encode check, and a per-type schema table for 44 record classes): inet_aton(inet_ntoa(a)) = a for IPv4 and IPv6 (every zero-run / embedded-IPv4 shape), the quoted character-string round trip for all 256 octets on the octet path (TXT-like types and, since the fix commits 6aa8f9c/210fbe5, HINFO/ISDN/X25/NAPTR/CAA/URI), with the code-point path get_string characterised separately (exact below 0x80, counter-example proved), blob round trips under every lossless chunking style, the generic form of unknown and known types, and parse(print v) = v through dns.rdata.from_text for every schema type whose field kinds have a lemma (43 classes). Tied to the code by a differential correspondence check on every modelled function (print and parse direction, malformed streams) and by constants/tables regenerated from the working tree; completed by a direct round-trip / totality / encodability oracle on the implementation over all 69 implemented record classes.",
     "note": "Trusted: Lean kernel + propext/Classical.choice/Quot.sound; the statements in lean/Props/C05.lean; the correspondence harness and its generators (differential testing bounds the tie); the implementation's base64/base32/time modules (the model's own base64 codec is proved). 25 record classes (LOC, APL, SVCB/HTTPS, NSEC/NSEC3/CSYNC, RRSIG/SIG, KEY, CERT, HIP, IPSECKEY, AMTRELAY, WKS, GPOS, NSAP, NID/L64, EUI48/64, DSYNC, TKEY, TSIG, OPT) are covered by the oracle only; Chaosnet A is modelled and tied but has no round-trip lemma (octal field); name fields are proved for the configurations that do not rewrite names (no origin, or absolute names with relativize=False) and tied/oracle-checked for the others. Per-type status is written to the evidence (coverage.type_status).",
     "technique": "Lean 4 proof (escape and tokenizer automata, combinator round trips lifted over a schema table, IPv6 zero-run selection by exhaustive case analysis of the 256 zero patterns + list theory for split/join) + model-vs-implementation correspondence + direct oracle",
     "design_ref": "DESIGN.md §7 C05",
